@@ -609,3 +609,87 @@ Arguments p2_loop_tr {St E}.
 Definition p2_events (ls normalize : bool) (n : nat) : list nat :=
   let orc := @mkP2 unit (fun _ st => st) (fun _ _ st => st) (fun _ => true) (fun st => st) (fun _ => false) in
   snd (@p2_loop_tr unit unit (fun _ => tt) orc ls normalize n 0 tt nil nil).
+
+(* ================================================================ additions of round 6 ================= *)
+(* ---------------------------------------------------------------- one parafac sweep on DATA and the error_calc call that follows it *)
+Section DataSweep.
+Context {F : Type} (Op : fops F).
+(* unfolding_dot_khatri_rao(tensor, (weights, factors), n) as data, shape [d_n; R] *)
+Definition mttkrp_data (X : tensor F) (R : nat) (w : option (list F)) (fs : list (tensor F)) (n : nat) : tensor F :=
+  tabulate [nth n (shape X) 0; R]
+           (fun ir => mttkrp Op (shape X) (tfun Op X) (wfun Op w) (colsT Op fs) n (nth 0 ir 0) (nth 1 ir 0)).
+(* for mode in modes_list:  mttkrp = unfolding_dot_khatri_rao(tensor, (weights, factors), mode);  factors[mode] = solve(mttkrp, ...)
+   `solve` (the linear solve with the Gram matrices) is an oracle: any function of the mode, the MTTKRP and the current factors.
+   The last MTTKRP computed is remembered (None before the first update). *)
+Fixpoint data_sweep (solve : nat -> tensor F -> list (tensor F) -> tensor F) (X : tensor F) (R : nat) (w : option (list F))
+         (ms : list nat) (fs : list (tensor F)) (M : option (tensor F)) : list (tensor F) * option (tensor F) :=
+  match ms with
+  | [] => (fs, M)
+  | m :: ms' => let Mt := mttkrp_data X R w fs m in data_sweep solve X R w ms' (set_nth m (solve m Mt fs) fs) (Some Mt)
+  end.
+(* one iteration of parafac without mask / sparsity / line search: the sweep, then error_calc(tensor, norm, weights, factors, None, None, mttkrp) *)
+Definition parafac_iteration_error (solve : nat -> tensor F -> list (tensor F) -> tensor F) (X : tensor F) (R : nat) (w : option (list F))
+           (ms : list nat) (fs : list (tensor F)) : F * F :=
+  let r := data_sweep solve X R w ms fs None in error_calc_model Op X R w (fst r) None None (snd r).
+End DataSweep.
+(* n_iter_max iterations of that loop on data (no normalisation / mask / sparsity / line search): the factors and the list of values *)
+Section DataLoop.
+Context {F : Type} (Op : fops F).
+Variables (solve : nat -> nat -> tensor F -> list (tensor F) -> tensor F) (X : tensor F) (R : nat) (w : option (list F)) (ms : list nat).
+Fixpoint parafac_data_loop (n it : nat) (fs : list (tensor F)) (errs : list (F * F)) : list (tensor F) * list (F * F) :=
+  match n with
+  | 0 => (fs, errs)
+  | S n' => let r := data_sweep Op (solve it) X R w ms fs None in
+            parafac_data_loop n' (S it) (fst r) (errs ++ [error_calc_model Op X R w (fst r) None None (snd r)])
+  end.
+(* the factors at the end of each iteration *)
+Fixpoint parafac_data_states (n it : nat) (fs : list (tensor F)) : list (list (tensor F)) :=
+  match n with
+  | 0 => []
+  | S n' => let fs' := fst (data_sweep Op (solve it) X R w ms fs None) in fs' :: parafac_data_states n' (S it) fs'
+  end.
+End DataLoop.
+
+(* ---------------------------------------------------------------- the CP loop under a mask (and sparsity) *)
+(* parafac with mask (optionally sparsity), as far as the reported values are concerned: each iteration updates the factors from the CARRIED
+   tensor (the data imputed with the previous reconstruction), then error_calc imputes the carried tensor with the new reconstruction,
+   computes the explicit residual (minus the sparse component) relative to the imputed tensor, and hands the imputed tensor on.
+   upd = the whole sweep (any function of the iteration, the factors and the carried tensor). *)
+Section MaskedLoop.
+Context {F : Type} (Op : fops F).
+Variables (upd : nat -> list (tensor F) -> tensor F -> list (tensor F)) (m : tensor F) (R : nat) (w : option (list F)) (card : option nat).
+Definition impute_with (Xc : tensor F) (fs : list (tensor F)) : tensor F :=
+  tabulate (shape Xc) (imputed Op (tfun Op Xc) (Some m) (cp_tensor_entry Op R w fs)).
+Fixpoint masked_loop (n it : nat) (fs : list (tensor F)) (Xc : tensor F) (errs : list (F * F)) : list (tensor F) * list (F * F) :=
+  match n with
+  | 0 => (fs, errs)
+  | S n' => let fs' := upd it fs Xc in
+            masked_loop n' (S it) fs' (impute_with Xc fs') (errs ++ [error_calc_model Op Xc R w fs' card (Some m) None])
+  end.
+Fixpoint masked_states (n it : nat) (fs : list (tensor F)) (Xc : tensor F) : list (list (tensor F)) :=
+  match n with
+  | 0 => []
+  | S n' => let fs' := upd it fs Xc in fs' :: masked_states n' (S it) fs' (impute_with Xc fs')
+  end.
+End MaskedLoop.
+
+(* ---------------------------------------------------------------- CMTF: the documented squared, unnormalised value *)
+(* state = (factors of the tensor's CP, V);  norm(X - [[A,B,C]])**2 + norm(Y - A V^T)**2 *)
+Definition cmtf_err2 {F} (Op : fops F) (X Y : tensor F) (R : nat) (st : list (tensor F) * tensor F) : F :=
+  fadd Op (fst (err_cp_true Op X R None (fst st) None None))
+          (fst (err_cp_true Op Y R None [nth 0 (fst st) (mk [] []); snd st] None None)).
+
+(* ---------------------------------------------------------------- tensor_ring_als: the axis bookkeeping of the design matrix *)
+(* tensorly/decomposition/_tr_als.py, sub-problem of mode `dim` of an order-N ring:
+     subchain_tensor = tr_decomp[(dim+1) % N];  for j in range(2, N): subchain_tensor = tensordot(subchain_tensor, tr_decomp[(dim+j) % N], axes=1)
+   so the axes of subchain_tensor are: 0 = the left bond of core dim+1 (r_{dim+1}); j = 1..N-1: the mode (dim+j) % N; N = the right bond of core
+   dim-1 (r_dim).
+     tr_idx = [i + N - dim for i in range(dim)] + [i + 1 for i in range(N - dim - 1)] + [N, 0]
+     subchain_tensor = transpose(subchain_tensor, tr_idx);  design_mat = reshape(subchain_tensor, (-1, rank[dim] * rank[dim+1]))
+   transpose(t, perm): axis k of the result is axis perm[k] of t. *)
+Inductive tr_axis := AMode (k : nat) | ABond (k : nat).
+Definition subchain_axes (N dim : nat) : list tr_axis :=
+  ABond (dim + 1) :: map (fun j => AMode ((dim + j) mod N)) (seq 1 (N - 1)) ++ [ABond dim].
+Definition tr_idx (N dim : nat) : list nat :=
+  map (fun i => i + N - dim) (seq 0 dim) ++ map (fun i => i + 1) (seq 0 (N - dim - 1)) ++ [N; 0].
+Definition permute_axes (axes : list tr_axis) (perm : list nat) : list tr_axis := map (fun p => nth p axes (ABond 0)) perm.
